@@ -34,6 +34,7 @@ LEMMAS = [
 def list_jobs():
     jobs = [(f"lemma:C12|{c}|{f}|{v or ''}|{d}|{e}|{cc}", "lemma") for c, f, v, d, e, cc in LEMMAS]
     jobs.append(("effects:ModelingUpdate.__init__", "effects"))
+    jobs.append(("chain:optimize_attr_updates_chain", "chain"))
     return jobs
 
 
@@ -201,4 +202,74 @@ def effects_job(job_id, st, rlimit):
 def run(job_id, st, rlimit):
     if job_id.startswith("lemma:C12"): return lemma_job(job_id.split(":", 1)[1], st, rlimit)
     if job_id.startswith("effects:"): return effects_job(job_id, st, rlimit)
+    if job_id.startswith("chain:"): return chain_job(job_id, st, rlimit)
     raise KeyError(job_id)
+
+
+# ------------------------------------------------------------------------------------------------ list profile (C08 / C01)
+QN_OPT = "efootprint.abstract_modeling_classes.explainable_object_base_class.optimize_attr_updates_chain"
+
+
+def chain_job(job_id, st, rlimit):
+    """optimize_attr_updates_chain: keeps exactly the LAST occurrence of every id, in order.
+    Loop invariant (predicate style) over the output list L at iteration i, last(j) := no later element has the id of j:
+      L holds, in increasing order of position, exactly the positions j < i with last(j)."""
+    from ..sym import QList, Havoc
+    ex = extract(QN_OPT)
+    eng = Engine(rlimit=rlimit)
+    units, world = st["units"], st["world"]
+    I_ = z3.IntSort()
+
+    def thunk(eng_):
+        I = Interp(eng_, units, specs=MV_.all_specs(world), world=world)
+        try:
+            n = z3.Int("chain.len"); eng_.assume(n >= 0)
+            ID = z3.Function("chain.id", I_, I_)
+            chain = QList(n, lambda p: p, lambda j: ID(j), "attr_updates_chain")
+            k, p, q, j = z3.Ints("k p q j")
+            last = lambda jj: z3.ForAll([k], z3.Implies(z3.And(jj < k, k < n), ID(k) != ID(jj)))
+            def inv(L, i):
+                if isinstance(L, list) and not L: Ln, Ls = z3.IntVal(0), (lambda x: x)
+                elif isinstance(L, QList): Ln, Ls = L.n, L.src
+                else: return [z3.BoolVal(False)]
+                return [z3.And(Ln >= 0, Ln <= i),
+                        z3.ForAll([p], z3.Implies(z3.And(0 <= p, p < Ln), z3.And(0 <= Ls(p), Ls(p) < i, last(Ls(p))))),
+                        z3.ForAll([p, q], z3.Implies(z3.And(0 <= p, p < q, q < Ln), Ls(p) < Ls(q))),
+                        z3.ForAll([j], z3.Implies(z3.And(0 <= j, j < i, last(j)), z3.Exists([p], z3.And(0 <= p, p < Ln, Ls(p) == j))))]
+            cnt = [0]
+            def mk():
+                cnt[0] += 1
+                s_ = z3.Function(f"out{cnt[0]}.src", I_, I_)
+                return QList(z3.Int(f"out{cnt[0]}.len"), lambda x, s_=s_: s_(x), lambda jj: ID(jj), "optimized_chain")
+            def loop0(ctx):
+                def view(i): return {"optimized_chain": Havoc(mk, inv)}
+                return view
+            I.phase = "body"
+            res = I.exec_function(ex.node, [chain], loop_specs={0: loop0}, qualname=QN_OPT)
+            if not isinstance(res, QList):
+                eng_.oblige(f"{QN_OPT}/returns the optimized list", False); return
+            Ln, Ls = res.n, res.src
+            eng_.oblige(f"{QN_OPT}/C08: no id is listed twice", z3.ForAll([p, q], z3.Implies(z3.And(0 <= p, p < q, q < Ln), ID(Ls(p)) != ID(Ls(q)))))
+            # ghost lemma (assumed; finite well-ordering): every position j has a LAST position lastocc(j) >= j carrying the same id.
+            # Instantiated by hand at a skolem position j0, together with invariant clause D at lastocc(j0).
+            LO = z3.Function("lastocc", I_, I_)
+            j0 = z3.Int("j0!")
+            jl = LO(j0)
+            saved = list(eng_.run.pc)
+            eng_.assume(z3.And(0 <= j0, j0 < n))
+            eng_.assume(z3.And(j0 <= jl, jl < n, ID(jl) == ID(j0), last(jl)))
+            eng_.oblige(f"{QN_OPT}/lemma: invariant clause D instantiated at lastocc(j0)",
+                        z3.Implies(z3.And(0 <= jl, jl < n, last(jl)), z3.Exists([p], z3.And(0 <= p, p < Ln, Ls(p) == jl))), kind="lemma")
+            p0 = z3.Int("p0!")     # skolem witness of the lemma just proved
+            eng_.assume(z3.Implies(z3.And(0 <= jl, jl < n, last(jl)), z3.And(0 <= p0, p0 < Ln, Ls(p0) == jl)))
+            eng_.oblige(f"{QN_OPT}/C08: every id of the input is still listed", z3.Exists([p], z3.And(0 <= p, p < Ln, ID(Ls(p)) == ID(j0))))
+            eng_.run.pc[:] = saved
+            eng_.oblige(f"{QN_OPT}/C01: the occurrence kept for an id is its LAST one (so it is recomputed after everything merged before it)",
+                        z3.ForAll([p, k], z3.Implies(z3.And(0 <= p, p < Ln, Ls(p) < k, k < n), ID(k) != ID(Ls(p)))))
+            eng_.oblige(f"{QN_OPT}/order of the kept occurrences is the input order", z3.ForAll([p, q], z3.Implies(z3.And(0 <= p, p < q, q < Ln), Ls(p) < Ls(q))))
+            eng_.oblige(f"{QN_OPT}/only elements of the input are returned", z3.ForAll([p], z3.Implies(z3.And(0 <= p, p < Ln), z3.And(0 <= Ls(p), Ls(p) < n))))
+            eng_.obligations.append(Obligation(f"{QN_OPT}/cover", list(eng_.run.pc), z3.BoolVal(False), "cover", eng_.fn, tuple(eng_.run.taken)))
+        except Unsupported as e:
+            eng_.undecided(f"{QN_OPT}/unsupported", str(e))
+    eng.explore(thunk, QN_OPT)
+    return [(ex.info(), eng)]
